@@ -516,3 +516,68 @@ func init() {
 	h.Prop("match_sub_gsub_split", 40000, 800000, genRegexCase, runRegex)
 	h.Prop("int_truncates", 20000, 400000, genInt, runInt)
 }
+
+// ---------------------------------------------------------------------------
+// sub/gsub that replace nothing leave their target alone (value and type)
+
+type NoMatchCase struct {
+	Fn     string `json:"fn"`     // sub | gsub
+	Target string `json:"target"` // var | elem | field | record | local
+	Value  string `json:"value"`  // AWK expression giving the target its (numeric) value
+	Re     string `json:"re"`     // a regex that cannot match the decimal rendering of a number
+	Dyn    bool   `json:"dyn"`
+	Conv   string `json:"conv"` // CONVFMT
+}
+
+func genNoMatch(t *rapid.T) NoMatchCase {
+	return NoMatchCase{Fn: rapid.SampledFrom([]string{"sub", "gsub"}).Draw(t, "fn"), Target: rapid.SampledFrom([]string{"var", "elem", "field", "record", "local"}).Draw(t, "target"),
+		Value: rapid.SampledFrom([]string{"0.1234567891", "10 / 3", "1e-7 / 3", "2 ^ 53 + 2", "123456789.125", "-0.000123456789", "10.5", "1e300 / 7", "17", "\"0.1234567891\" + 0", "0.1 + 0.2"}).Draw(t, "value"),
+		Re: rapid.SampledFrom([]string{"zzz", "q+", "^x", "[[:alpha:]][[:alpha:]]", "#", "a|b", "\\$\\$"}).Draw(t, "re"), Dyn: rapid.Bool().Draw(t, "dyn"),
+		Conv: rapid.SampledFrom([]string{"%.6g", "%.2g", "%.10g", "%.3f"}).Draw(t, "conv")}
+}
+
+func runNoMatch(x *h.Ctx, c NoMatchCase) string {
+	re := awk.QuoteRegex(c.Re)
+	if c.Dyn {
+		re = awk.QuoteStr(c.Re)
+	}
+	var tgt, pre string
+	switch c.Target {
+	case "var":
+		tgt = "t"
+	case "elem":
+		tgt = "arr[\"k\", 1]"
+	case "field":
+		tgt, pre = "$2", "$0 = \"a b c\"; "
+	case "record":
+		tgt = "$0"
+	default:
+		tgt = "loc"
+	}
+	body := fmt.Sprintf(`%sCONVFMT = "%s"; orig = %s; %s = orig; n = %s(%s, "R", %s)
+  printf "%%d %%d %%d\n", n, (%s - orig == 0), ((%s "") == (orig ""))`, pre, c.Conv, c.Value, tgt, c.Fn, re, tgt, tgt, tgt)
+	src := "BEGIN {\n  " + body + "\n}\n"
+	if c.Target == "local" {
+		src = "function f(loc,   orig, n) {\n  " + body + "\n}\nBEGIN { f() }\n"
+	}
+	got, err := runAwk(src, "", false)
+	if err != nil {
+		return fmt.Sprintf("run-time error: %v\nprogram: %s", err, src)
+	}
+	if c.Target == "field" || c.Target == "record" {
+		// a field holds text: assigning a number to it stores its CONVFMT rendering, so only the
+		// string form is required to be unchanged there
+		if !strings.HasPrefix(got, "0 ") || !strings.HasSuffix(got, " 1\n") {
+			return fmt.Sprintf("%s() without a match changed its target %s\nprogram: %s\ngoawk printed (n, value unchanged, string unchanged): %q", c.Fn, tgt, src, got)
+		}
+	} else if got != "0 1 1\n" {
+		return fmt.Sprintf("%s() that replaced nothing changed its target %s (the number it held was replaced by its CONVFMT rendering)\nprogram: %s\ngoawk printed (n, value unchanged, string unchanged): %q, want \"0 1 1\"", c.Fn, tgt, src, got)
+	}
+	x.Class("target-" + c.Target)
+	x.Nontrivial("")
+	return ""
+}
+
+func init() {
+	h.Prop("no_match_leaves_target_alone", 3000, 40000, genNoMatch, runNoMatch)
+}
